@@ -20,10 +20,12 @@ class Matter:
         self.number_density = number_density
         self.mass_density = mass_density
         self.volume = volume
+        # remember which density was given; the other one is derived again whenever the composition changes
+        self.density_given = 'number' if (number_density and not mass_density) else 'mass'
 
     def _norm(self):
       # setup densities of the composite
-        if self.mass_density:
+        if self.mass_density and self.density_given!='number':
             self.mass_density.to(Units.MASS_DENSITY)
             self.number_density = (self.mass_density/self.composite_mass).to(Units.NUMBER_DENSITY)
         elif self.number_density: # !! number density of a composite, not sum of all its components
